@@ -9,7 +9,8 @@ the very same objects on the new part, it never copies them.
 
 The model mirrors the code after the repairs fixes/C15-1..4 (quarter map of the new part; a missing
 staff counts as staff 1; voices and staves in use are those of the elements themselves), C15-7 (integer-valued
-float divisions) and C15-9 (objects that are on the timeline by their end only are transferred too).
+float divisions), C15-9 (objects that are on the timeline by their end only are transferred too) and C15-11 (a part
+that is reachable twice is merged once; parts are told apart by identity).
 
 Only Lean core + Gen/ is imported.
 -/
@@ -64,6 +65,9 @@ structure Elem where
   chain : List Nat          -- oids of `e.tie_next_notes`
   refs : List Nat := []     -- oids of the timed objects the attributes of `e` refer to (ties, slurs, tuplets,
                             -- beam, grace chain, fermata; start / end notes of a slur or tuplet; notes of a beam)
+  extra : Nat := 0          -- every other instance attribute of the object (id, step, alter, octave, symbolic
+                            -- duration, articulations, text ...) as one opaque value: `merge_parts` assigns
+                            -- `e.voice`, `e.staff` and - through `Part.add` - `e.start`, `e.end`, nothing else
   deriving DecidableEq, Repr
 
 structure APart where
@@ -73,6 +77,8 @@ structure APart where
   tails : List Elem := []   -- objects that are on the timeline by their end only (`e.start is None`, e.g. a slur
                             -- whose start is not in the score), as `part.iter_all(mode="ending")` yields them;
                             -- their `start` field is not used
+  name : Option String := none   -- the `id` attribute of the Part (`None` or a string such as "P1"): parts of
+                            -- different files often carry the same one; it plays no role in merging
   deriving DecidableEq, Repr
 
 /-- every object registered on the part: by its start (and perhaps its end), or by its end only -/
@@ -102,6 +108,13 @@ end
 def iterParts : Shape → List APart
   | .one t => flattenTree t
   | .many ts => flattenList ts
+
+/-- `list({id(p): p for p in parts}.values())` (fixes/C15-11): a part that is reachable more than once - listed twice,
+or on its own and inside its group - is one input.  Parts are told apart by the identity of the Part object (`pid`),
+never by their `id` attribute or their contents; the first occurrence fixes the position. -/
+def distinctParts : List APart → List APart
+  | [] => []
+  | p :: ps => p :: (distinctParts ps).filter fun q => q.pid != p.pid
 
 -- ---------------------------------------------------------------- small numeric helpers
 
@@ -228,7 +241,7 @@ def voicesGiven (ps : List APart) : Bool :=
 inductive Result where
   | same (p : APart)                       -- the single input part itself
   | merged (L : Nat) (elems : List Elem)   -- a new part with divisions `L`; `elems` as `iter_all()` yields them
-  deriving Repr
+  deriving DecidableEq, Repr
 
 /-- `merge_parts(parts, reassign)` on parts with one divisions value each; `none` = an exception -/
 def mergeParts (m : Mode) (parts : List APart) : Option Result :=
@@ -242,7 +255,7 @@ def mergeParts (m : Mode) (parts : List APart) : Option Result :=
       some (.merged L (isort iterLe (mergeFrom m L true 0 0 0 parts)))
     else none
 
-def merge (m : Mode) (s : Shape) : Option Result := mergeParts m (iterParts s)
+def merge (m : Mode) (s : Shape) : Option Result := mergeParts m (distinctParts (iterParts s))
 
 /-- the end-only objects of the merged part (when `mergeParts m parts` is a merged part): `end` rescaled, voice and
 staff renumbered like those of the elements; in order of insertion -/
@@ -251,7 +264,7 @@ def mergedTails (m : Mode) (parts : List APart) : List Elem :=
 
 /-- `load_score_as_part(filename)`: `merge_parts(load_score(filename).parts)` with the default `reassign="voice"`;
 `s` is the part structure of the loaded score (`Score.parts` is `list(iter_parts(structure))`) -/
-def loadScoreAsPart (s : Shape) : Option Result := mergeParts .voice (iterParts s)
+def loadScoreAsPart (s : Shape) : Option Result := mergeParts .voice (distinctParts (iterParts s))
 
 -- ---------------------------------------------------------------- Score objects and their history
 
@@ -300,7 +313,8 @@ def argParts : Arg → Option (List APart)
   | .score s ops => (runOps (mkScore s) ops).map (·.parts)
 
 /-- `merge_parts(arg, reassign)` -/
-def mergeArg (m : Mode) (a : Arg) : Option Result := (argParts a).bind (mergeParts m)
+def mergeArg (m : Mode) (a : Arg) : Option Result :=
+  (argParts a).bind fun ps => mergeParts m (distinctParts ps)
 
 /-- the divisions value the model sees for a part with `_quarter_durations == qds`: the single entry, and 0 (which
 `mergeParts` rejects, as the code raises "Merging parts with multiple divisions is not supported") otherwise -/
